@@ -1,5 +1,5 @@
 use crate::linalg::Vector;
-use crate::linalg::{norm, vmul, vsub};
+use crate::linalg::{dot, norm, vmul, vsub};
 
 /// An enum to represent the [exponential
 /// family](https://en.wikipedia.org/wiki/Exponential_family) set of distributions. These are
@@ -72,7 +72,10 @@ impl ExponentialFamily {
         let n = y.len();
         assert_eq!(n, mu.len());
         match self {
-            ExponentialFamily::Gaussian => norm(&vsub(y, mu)),
+            ExponentialFamily::Gaussian => {
+                let r = vsub(y, mu);
+                dot(&r, &r)
+            }
             ExponentialFamily::Bernoulli => {
                 (0..n)
                     .map(|i| y[i] * mu[i].ln() + (1. - y[i]) * (1. - mu[i]).ln())
